@@ -369,6 +369,13 @@ def doMacro (st : St) (arg : String) : St × String :=
 /-! ### ownership (C19) -/
 def sortNat (l : List Nat) : List Nat := l.mergeSort (fun a b => a ≤ b)
 
+/-- what `try_connect` / `disconnect` / `isolate` / a query do to the adjacency lists of the flavour -/
+def ownMut (directed : Bool) (s : S) (u v : Nat) : StoreOp Nat → S
+  | .tryConnect e => (if directed then Di.tryConnect s u v e else Un.tryConnect s u v e).1
+  | .disconnect => (if directed then Di.disconnect s u v else Un.disconnect s u v).1
+  | .isolate => (if directed then Di.isolate s u else Un.isolate s u).1
+  | .query => s
+
 def ownReq (st : St) (args : List String) : St × String :=
   let n := fun (x : String) => x.toNat?
   let op : Option (OwnOp Nat Nat) := match args with
@@ -383,6 +390,15 @@ def ownReq (st : St) (args : List String) : St × String :=
     | ["own.path", a, t, d] => (n a).bind fun a => (n t).bind fun t => (n d).map fun d => .pathTo a t d
     | ["own.search", a, t, d] => (n a).bind fun a => (n t).bind fun t => (n d).map fun d => .searchTo a t d
     | ["own.order", a, d] => (n a).bind fun a => (n d).map fun d => .orderOf a d
+    | ["own.post", a, d] => (n a).bind fun a => (n d).map fun d => .orderPost a d
+    | ["own.try", a, b, e] => (n a).bind fun a => (n b).bind fun b => (n e).map fun e => .storeOp a b (.tryConnect e)
+    | ["own.disc", a, b] => (n a).bind fun a => (n b).map fun b => .storeOp a b .disconnect
+    | ["own.iso", a] => (n a).map fun a => .storeOp a a .isolate
+    | ["own.q", a, b] => (n a).bind fun a => (n b).map fun b => .storeOp a b .query
+    | ["own.find", a, k, d] => (n a).bind fun a => (n k).bind fun k => (n d).map fun d => .find a k d
+    | ["own.pathk", kind, mode, a, t, d] =>
+      let kd : Option Kind := if kind == "bfs" then some .bfs else if kind == "dfs" then some .dfs else none
+      kd.bind fun kd => (n a).bind fun a => (n t).bind fun t => (n d).map fun d => .pathOf kd (mode == "cycle") a t d
     | _ => none
   match args, op with
   | ["own.graph", g], _ => match n g with
@@ -393,10 +409,10 @@ def ownReq (st : St) (args : List String) : St × String :=
     | some g, some k, some tmp, some id =>
       if !((st.own.slot g).contains k) then (st, "skip") else
       let sel : S → Nat → List (Nat × Nat) := if st.directed then outAdj else unAdj
-      match st.own.step sel (.new tmp id) with
+      match st.own.step sel (ownMut st.directed) (.new tmp id) with
       | none => (st, "refused")
       | some o1 =>
-        match o1.step sel (.drop tmp) with
+        match o1.step sel (ownMut st.directed) (.drop tmp) with
         | none => (st, "refused")
         | some o2 => ({ st with own := o2 }, s!"rel={showKeys (sortNat o2.released)}")
     | _, _, _, _ => (st, "bad-op")
@@ -406,7 +422,7 @@ def ownReq (st : St) (args : List String) : St × String :=
   | _, none => (st, "bad-op")
   | _, some op =>
     let sel : S → Nat → List (Nat × Nat) := if st.directed then outAdj else unAdj
-    match st.own.step sel op with
+    match st.own.step sel (ownMut st.directed) op with
     | none => (st, "refused")
     | some o => ({ st with own := o }, s!"rel={showKeys (sortNat o.released)}")
 
